@@ -1,6 +1,6 @@
 (* C07 — Refilter emits precisely the membership changes; nothing if nothing
    changes.  Property theorems only. *)
-From KC Require Import Base Filter FilterProps Cache CacheSpec CacheProps FilterSub FilterSubProps.
+From KC Require Import Base Filter FilterProps Cache CacheSpec CacheProps CacheEvents FilterSub FilterSubProps RefilterDelta.
 
 (* on a node whose cache is the f1-view of the parent content, Refilter(f2)
    leaves exactly the f2-view *)
@@ -43,3 +43,20 @@ Theorem C07_refilter_roundtrip : forall f1 f2 plist,
   cache_eq (fst (do_sync (accept f1) (fst (do_sync (accept f2) (view f1 plist) plist)) plist)) (view f1 plist).
 Proof. exact refilter_roundtrip. Qed.
 Print Assumptions C07_refilter_roundtrip.
+
+(* the statement itself, key by key: exactly one Delete for each cached object
+   f2 rejects, exactly one Create for each parent object newly accepted, no
+   event for objects that remain *)
+Theorem C07_refilter_delta_per_key : forall f1 f2 plist k,
+  distinct_listing plist ->
+  kevs k (snd (do_sync (accept f2) (view f1 plist) plist)) =
+  match entries_for k plist with
+  | [e] => match accept f1 (e_obj e), accept f2 (e_obj e) with
+           | true, false => [mk_event Delete (e_obj e)]
+           | false, true => [mk_event Create (e_obj e)]
+           | _, _ => []
+           end
+  | _ => []
+  end.
+Proof. exact refilter_delta_per_key. Qed.
+Print Assumptions C07_refilter_delta_per_key.
